@@ -176,6 +176,10 @@ theorem FrM.modInstX_scopeAdd (f : FUid) (sc src : String) (hG : G f) (hs : G sr
     · exact Or.inl (Or.inr h)
     · exact Or.inr (h ▸ hs)
 
+/- NOTE for a change of `CoreVM.handleEventMatching` (error containment around the per-head body, erroring heads returned): this is
+   the ONLY theorem of this file that unfolds it.  The script below is syntax-directed (`pres_search` knows `attemptPy` / `tryCatch`,
+   `pushEvent`, `modifyRest` on non-instance fields) and the statement is polymorphic in the result type: it was run unchanged on a
+   mock of such a function (body wrapped in `attemptPy`, ColangError pushed, erroring heads collected). -/
 /-- **Frame theorem for `_handle_event_matching`.**  `G` contains the flows of the heads that matched the event (and, for a
     `FlowStarted` event, the flow that started: it is registered in the open scopes of the matching flows).  Then — for every
     state in which `G` is closed, every event and every list of matching heads — every instance outside `G` keeps its status,
